@@ -1739,8 +1739,10 @@ class FuncFindLast(ValueFunc):
         if obj.isString():
             s = obj.value
             part = args.getString("part").value
-            start = args.getInt("start", len(s) - 1).value
-            return ValueInt(obj.value.rfind(part, 0, start))
+            if not args.hasArg("start"):
+                return ValueInt(s.rfind(part))
+            start = args.getInt("start").value
+            return ValueInt(s.rfind(part, 0, start + len(part)))
         elif obj.isList():
             env = environment
             if key:
